@@ -943,6 +943,22 @@ def get_code(node: ast.AST | Range, source: str) -> str:
 
 
 def literal_value(node: ast.AST) -> bool:
+    """Find the value that an expression is known to always evaluate to.
+
+    Raises:
+        ValueError: If no such value can be determined, for instance because the expression
+            depends on a variable, or because evaluating it raises an exception.
+    """
+    try:
+        return _literal_value(node)
+    except ValueError:
+        raise
+    except Exception as error:
+        # Evaluating e.g. 1 / 0, 1 + "a" or {[1]: 2} raises, so there is no value to be found.
+        raise ValueError(f"Cannot find a deterministic value: {error!r}") from error
+
+
+def _literal_value(node: ast.AST) -> bool:
     if has_side_effect(node, safe_callable_whitelist=constants.BUILTIN_FUNCTIONS):
         raise ValueError("Cannot find a deterministic value for a node with a side effect")
 
